@@ -218,6 +218,14 @@ CONTEXTS = {
     "w[f[Hm]i[B]m]": (lambda b: (("while", (("for", b + (M,), ()), ("if", (("break",),), ()), M), ()),), True),
     "f[i[C]f[Hm]m]": (lambda b: (("for", (("if", (("continue",),), ()), ("for", b + (M,), ()), M), ()),), True),
     "f[Hm]w[Hm]": (lambda b: (("for", b + (M,), ()), ("while", b + (M,), ())), True),
+    # a loop L whose else ENDS in an interrupt and whose only break sits in the else of a loop nested
+    # in L (hole), followed by a statement; inside an outer loop, or with return in a function
+    "w[f[w[m]e[H]]e[C]m]e[m]": (lambda b: (("while", (("for", (("while", (M,), b),), (("continue",),)), M), (M,)),), True),
+    "f[w[f[m]e[H]]e[B]m]m": (lambda b: (("for", (("while", (("for", (M,), b),), (("break",),)), M), ()), M), True),
+    "f[f[f[m]e[H]]e[C]m]": (lambda b: (("for", (("for", (("for", (M,), b),), (("continue",),)), M), ()),), True),
+    "f[w[i[m]e[H]]e[C]m]": (lambda b: (("for", (("while", (("if", (M,), b),), (("continue",),)), M), ()),), True),
+    "F:f[w[m]e[H]]e[R]m": (lambda b: (("for", (("while", (M,), b),), (("return",),)), M), True),
+    "F:w[f[m]e[H]m]e[R]m": (lambda b: (("while", (("for", (M,), b), M), (("return",),)), M), True),
     "i[H]": (lambda b: (("if", b, ()),), False),
     "i[m]e[H]m": (lambda b: (("if", (M,), b), M), False),
 }
@@ -228,6 +236,8 @@ def composed(inner_max=3, placements=("module", "function", "class", "method")):
     for pl in placements:
         _, in_func = PLACEMENTS[pl]
         for cname, (build, hole_in_loop) in CONTEXTS.items():
+            if cname.startswith("F:") and not in_func:
+                continue  # the context itself contains a return
             for size in range(1, inner_max + 1):
                 for b in blocks(size, 2, hole_in_loop, in_func):
                     if not has_kind(b, ("break", "continue", "return")):
